@@ -32,10 +32,10 @@ SPEC = {
                    "PdModel/Lemmas/RegionTreeQuery.lean", "PdModel/Props/C07.lean",
                    "PdModel/Spec/C07.lean", "PdModel/Driver/RegionTree.lean", "PdModel/Driver/RegionText.lean"],
     "gen": {
-        "quick": {"args": ["-n", "800", "-len", "120"], "streams": 8},
-        "thorough": {"args": ["-n", "2500", "-len", "160"], "streams": 16},
+        "quick": {"args": ["-n", "800", "-len", "120", "-bulk", "160"], "streams": 8},
+        "thorough": {"args": ["-n", "2500", "-len", "160", "-bulk", "50"], "streams": 16},
     },
-    "search": {"args": ["-n", "60", "-len", "140"], "streams": 8},
+    "search": {"args": ["-n", "60", "-len", "140", "-bulk", "8"], "streams": 8},
     "nontrivial": nontrivial,
     "coverage_extra": coverage_extra,
     "rule": "sequence = reset + 35-160 mutations of a real core.BasicCluster/RegionsInfo (put of a new id, gap fill, same "
